@@ -163,7 +163,7 @@ Proof.
   destruct (ok_cv _ _ _ (ok_cls _ _ R c Hc) _ _ E) as [o [Hl [Ec Hin]]].
   destruct D as [_ [_ KO]]. pose proof (KO i o Hl) as Kd. rewrite Ec, Hk in Kd. injection Kd as Kd.
   destruct (o_data o) as [| es ss t | | |] eqn:Ed; try discriminate.
-  destruct (C i o Hl es ss t Ed) as [GNo [_ [KeysR [cn [Ek Ecn]]]]].
+  destruct (C i o Hl es ss t Ed) as [GNo [_ [KeysR [[cn [Ek Ecn]] _]]]].
   destruct (KeysR _ Hin) as [k Ey]. injection Ey as ->.
   exists o, cn. split; [exact Hl|]. split; [exact Ec|]. split; [exact Ek|]. split; [|eauto].
   rewrite canon_orbit_invariant by exact GNo. exact Ecn.
